@@ -40,7 +40,7 @@ manifest = {
     "setup_cmd": "bash setup.sh",
     "hooks": {
         "guard": "oxidd_verif (rustc --cfg)",
-        "enable": "RUSTFLAGS='--cfg oxidd_verif' cargo build --release --offline (done by check.py for the harness). One hook: lock-event instrumentation `oxidd_core::util::verif_locks` with tokens at every lock site (used by the C07 lock-trace streams); all other observations use public API. With the guard off the instrumentation compiles to nothing.",
+        "enable": "RUSTFLAGS='--cfg oxidd_verif' cargo build --release --offline (done by check.py for the harness). Three hooks, all compiled only under cfg(oxidd_verif): lock-event instrumentation `oxidd_core::util::verif_locks` with tokens at every lock site (C07 lock-trace streams), `oxidd_reorder::verif_bubble_sort` exposing the two swap schedulers of set_var_order (C08 swap-schedulers stream), allocator event log `oxidd_core::util::verif_alloc` in the index manager's slot allocator (C05 alloc-trace stream); copies of the diffs in /verif/hooks. All other observations use public API. With the guard off the instrumentation compiles to nothing.",
         "baseline_off_cmd": "cd /repo && cargo test --workspace --no-fail-fast --offline",
         "source_commits": ["88146f9", "cfc00a3", "eb5fab5"],
         "add_only": False,
